@@ -384,9 +384,9 @@ func (c *Ctx) checkVersionDataAccessors() {
 		eval := func(v int64) (bool, bool) {
 			for _, b := range fn.Blocks {
 				if r, ok := b.Instrs[len(b.Instrs)-1].(*ssa.Return); ok {
-					if bo, ok := r.Results[0].(*ssa.BinOp); ok {
-						tf, _ := condFacts(bo)
-						if len(tf) == 1 {
+					if rv := returnedValue(r, 0); rv != nil {
+						tf, _ := condFacts(rv)
+						if len(tf) == 1 && !strings.HasPrefix(tf[0], "T:") {
 							// atom = left operand
 							for _, op := range []string{" >= ", " != ", " == ", " > ", " <= ", " < "} {
 								if i := strings.Index(tf[0], op); i > 0 {
